@@ -25,7 +25,10 @@ type c02Case struct {
 	Type string `json:"type"`
 	Res  string `json:"res"` // prototext of the ContainedResource wrapper
 	Mix  int    `json:"mix"` // selects which steps of the "mixed" spelling carry an indexer
-	res  proto.Message
+	// Alias ≠ 0: some positions of the resource hold the same message object as another
+	// position (aliasSubtrees); the text form cannot express it
+	Alias int `json:"alias,omitempty"`
+	res   proto.Message
 }
 
 func c02Gen(s Src) c02Case {
@@ -36,7 +39,11 @@ func c02Gen(s Src) c02Case {
 		o.P0 = 30
 	}
 	r := genResource(s, t, o)
-	return c02Case{Type: t, Res: resToText(r), Mix: s.Intn(1 << 16), res: r}
+	c := c02Case{Type: t, Res: resToText(r), Mix: s.Intn(1 << 16), res: r}
+	if s.Prob(30) {
+		c.Alias = 1 + s.Intn(1<<20)
+	}
+	return c
 }
 
 func kebab(enumName string) string {
@@ -235,6 +242,9 @@ func c02Run(ctx *Ctx, c c02Case) {
 			ctx.Fail("harness: cannot decode case", err.Error())
 			return
 		}
+	}
+	if n := aliasSubtrees(res, c.Alias); n > 0 {
+		ctx.Count("resources_with_shared_message_objects")
 	}
 	root, perrs, err := buildTree(res)
 	if err != nil {
